@@ -339,7 +339,10 @@ class Base(_BaseClass):
         if starttoken:
             resulttokens.append(starttoken)
             val = starttoken[1]
-            if '[' == val:
+            if Base._prods.IDENT == starttoken[0]:
+                # e.g. an escaped bracket is a name, no structure
+                pass
+            elif '[' == val:
                 bracket += 1
             elif '{' == val:
                 brace += 1
